@@ -226,6 +226,7 @@ def _generate(wd, cfg, conds, name, workers, mid):
     return r, st, trace
 
 
+MAX_TIMEOUTS = 3     # whole shell: programs allowed to hit the run time limit before the phase is cut short
 BATCH = 700_000      # records per validation batch (bounds the memory of the driver)
 SIM_WAIT_ARTIFACT = "no job to wait for"
 
@@ -275,9 +276,41 @@ def phase2(rep, wd, tier):
     vlib.tlc_must_pass(r, f"program generation {cfg}")
     obs = os.path.join(wd, "observed.ndjson")
     dfs, cap, nrand = (8, 200, 3) if tier == "quick" else (10, 2000, 10)
-    _, _, err = vlib.run_harness(PKG, ["shell", "--in", progs, "--out", obs, "--dfs", str(dfs), "--cap", str(cap),
-                                       "--random", str(nrand)])
-    st = json.loads(err.strip().splitlines()[-1])
+    # The harness ends with exit code 3 when one run of the shell does not return (code under test
+    # looping without yielding): that is data.  It is restarted after the program concerned; after
+    # MAX_TIMEOUTS such programs the rest is not run (counted).
+    st = {"runs": 0}
+    timeouts, start, part = [], 0, 0
+    total_progs = vlib.count_lines(progs)
+    with open(obs, "w") as allobs:
+        while start < total_progs and len(timeouts) < MAX_TIMEOUTS:
+            piece = f"{obs}.{part}"
+            part += 1
+            rc, _, err = vlib.run_harness(PKG, ["shell", "--in", progs, "--out", piece, "--dfs", str(dfs), "--cap", str(cap),
+                                                "--random", str(nrand), "--start", str(start)], check=False)
+            if os.path.exists(piece):
+                with open(piece) as f:
+                    for line in f:
+                        if line.endswith("\n"):
+                            allobs.write(line)
+                os.remove(piece)
+            if rc == 0:
+                st["runs"] += json.loads(err.strip().splitlines()[-1])["runs"]
+                start = total_progs
+            elif rc == 3 and os.path.exists(piece + ".timeout"):
+                with open(piece + ".timeout") as f:
+                    t = json.loads(f.readline())
+                os.remove(piece + ".timeout")
+                timeouts.append(t)
+                start = t["index"] + 1
+            else:
+                raise vlib.ToolError(f"harness shell exited {rc}: {err[-1500:]}")
+    not_run = total_progs - start if len(timeouts) >= MAX_TIMEOUTS else 0
+    for t in timeouts:
+        rep.violation({"phase": "shell", "fam": t["fam"], "symptom": "timeout", "script": t["script"], "schedule": t["schedule"]},
+                      f"whole shell, {t['fam']}: the shell did not return within the time limit",
+                      {"phase": "shell", "script": t["script"], "init": t["init"], "schedule": "fifo",
+                       "observed": {"outcome": "timeout"}, "allowed": t["allowed"]})
     n_prog = n_obs = n_bad = n_skip = 0
     fams = {}
     samples = []
@@ -310,7 +343,11 @@ def phase2(rep, wd, tier):
              f"checked for membership, {n_bad} not allowed, {n_skip} runs skipped (simulator wait artifact); TLC {r.wall:.1f}s")
     os.remove(progs)
     os.remove(obs)
-    return {"scripts": n_prog, "runs": st["runs"], "distinct_traces_checked": n_obs, "not_allowed": n_bad,
+    if timeouts:
+        vlib.log(f"[p4] whole shell: {len(timeouts)} program(s) did not return within the time limit; "
+                 f"{not_run} programs not run after that")
+    return {"scripts": n_prog, "runs": st["runs"], "distinct_traces_checked": n_obs, "not_allowed": n_bad + len(timeouts),
+            "timeouts": len(timeouts), "programs_not_run_after_timeouts": not_run,
             "runs_skipped_simulator_wait_artifact": n_skip, "families": fams, "generator_cfg": cfg,
             "schedule_exploration": {"dfs_depth": dfs, "cap": cap, "random_per_script": nrand},
             "samples": samples}
